@@ -393,6 +393,58 @@ KNOB_SHIFT = 0          # set per run from the plan (world.run_plan); see _shrin
 _API = None
 
 
+def _knob(value):
+    """Value of a new numeric module-level constant for this run."""
+    if KNOB_SHIFT and not isinstance(value, bool):
+        if isinstance(value, int) and value >= 64:
+            return max(4, value >> KNOB_SHIFT)
+        if isinstance(value, float) and value >= 64:
+            return max(4.0, value / (2 ** KNOB_SHIFT))
+    return value
+
+
+def _knobify(src, filename, modname):
+    """Parse a library module and wrap the value of every module-level
+    `UPPER_CASE = <numeric constant expression>` assignment that the pinned tree
+    does not have in `__wavesim_knob__(...)`, so that the shrunk value is already
+    in force while the module body executes (default arguments, decorators and
+    closures bind it).  Line numbers are kept."""
+    import ast
+    import json
+    import os
+    global _API
+    if _API is None:
+        with open(os.path.join(os.path.dirname(__file__), "api_baseline.json")) as f:
+            _API = json.load(f)
+    have = set(_API.get("__consts__", {}).get(modname, ()))
+    try:
+        tree = ast.parse(src, filename)
+    except SyntaxError:
+        return src
+
+    def numeric(node):
+        if isinstance(node, ast.Constant):
+            return isinstance(node.value, (int, float)) and not isinstance(node.value, bool)
+        if isinstance(node, ast.BinOp):
+            return numeric(node.left) and numeric(node.right)
+        if isinstance(node, ast.UnaryOp):
+            return numeric(node.operand)
+        return False
+    changed = False
+    for node in tree.body:
+        if isinstance(node, ast.Assign) and len(node.targets) == 1 \
+                and isinstance(node.targets[0], ast.Name) and node.targets[0].id.isupper() \
+                and node.targets[0].id not in have and numeric(node.value):
+            call = ast.Call(func=ast.Name(id="__wavesim_knob__", ctx=ast.Load()),
+                            args=[node.value], keywords=[])
+            node.value = ast.copy_location(call, node.value)
+            changed = True
+    if not changed:
+        return src
+    ast.fix_missing_locations(tree)
+    return tree
+
+
 def _shrink_new_constants(mods):
     """Tuning knobs: numeric module-level constants that a change under test
     ADDS to the library (thresholds, chunk / cache sizes: UPPER_CASE ints or
@@ -507,8 +559,10 @@ def fresh_library(patch_stream=False):
             if co is None:
                 with open(m.__file__, "rb") as f:
                     src = f.read()
-                co = compile(src, m.__file__, "exec", dont_inherit=True)
+                co = compile(_knobify(src, m.__file__, name), m.__file__, "exec",
+                             dont_inherit=True)
                 _code[name] = co
+            m.__dict__["__wavesim_knob__"] = _knob
             exec(co, m.__dict__)
             mods.append(m)
     finally:
@@ -517,7 +571,6 @@ def fresh_library(patch_stream=False):
          _threading.BoundedSemaphore) = _saved
     _time_proxy.reset()
     _patch_library_locks(mods)
-    _shrink_new_constants(mods)
     L.orig_resource_stream = L.coeffs.__dict__.get("resource_stream")
     if patch_stream and L.orig_resource_stream is not None:
         L.coeffs.resource_stream = make_resource_stream(L.orig_resource_stream)
